@@ -132,8 +132,10 @@ func c03Judge(cs *c03Case, intended string, tags []string, header string, r *Res
 		}
 		if len(a.Errors) > 0 {
 			r.Outcome(kind + ":REJECTED")
-			r.Distinct("R|" + normDiag(a.Errors[0].Msg))
-			r.Fail("REJECTS-WELL-TYPED:"+normDiag(a.Errors[0].Msg), tags, caseText, "diagnostics: "+strings.Join(a.messages(), " | "))
+			// (the alphabetically first message: the analyzer's own order depends on map iteration)
+			first := normDiag(a.messages()[0])
+			r.Distinct("R|" + first)
+			r.Fail("REJECTS-WELL-TYPED:"+first, tags, caseText, "diagnostics: "+strings.Join(a.messages(), " | "))
 			return
 		}
 		w := &typeWalker{res: res}
@@ -191,7 +193,7 @@ func c03Judge(cs *c03Case, intended string, tags []string, header string, r *Res
 		return
 	}
 	r.Outcome(kind + ":rejected")
-	r.Distinct("E|" + rule + "|" + normDiag(a.Errors[0].Msg))
+	r.Distinct("E|" + rule + "|" + normDiag(a.messages()[0]))
 	if kind == "mutant" {
 		r.Sample(caseText)
 	}
@@ -297,6 +299,10 @@ func c03Scenarios() []Scenario {
 				s.apply()
 				tags := append([]string{"mut:" + s.mut}, s.tags...)
 				tags = append(tags, c03Features(cs)...)
+				if d := os.Getenv("C03_DUMP"); d != "" && strings.Contains(d, f.Name) {
+					_, txt := cs.texts()
+					r.Fail("DUMP:"+s.mut+" -> "+s.rule, nil, txt, "")
+				}
 				header := fmt.Sprintf("// mutant %d of base:%s #%d %s: %s %s (meant to break: %s)\n", k, f.Name, b, strings.Join(cs.Tags, " "), s.mut, strings.Join(s.info, " "), s.rule)
 				c03Judge(cs, s.rule, tags, header, r)
 			},
